@@ -65,3 +65,154 @@ pub fn hash_chain(cells: &[Felt]) -> Felt {
     let h = cells.iter().fold(Felt::ZERO, |acc, c| pedersen_hash(&acc, c));
     pedersen_hash(&h, &Felt::from(cells.len() as u64))
 }
+
+// ------------------------------------------------------------------------------------------
+// public input: layout tables and the three-valued validation predicate
+// ------------------------------------------------------------------------------------------
+
+use num_bigint::BigUint;
+
+/// (segment index, memory cells per builtin instance, trace rows per instance)
+pub struct LayoutFacts {
+    pub n_segments: usize,
+    pub builtins: &'static [(usize, u64, u64)],
+}
+
+pub fn layout_facts(layout: &str) -> Option<LayoutFacts> {
+    Some(match layout {
+        "dex" | "small" => LayoutFacts { n_segments: 6, builtins: &[(3, 3, 128), (4, 1, 128), (5, 2, 8192)] },
+        "recursive" => LayoutFacts { n_segments: 6, builtins: &[(3, 3, 2048), (4, 1, 128), (5, 5, 128)] },
+        "recursive_with_poseidon" => LayoutFacts { n_segments: 7, builtins: &[(3, 3, 4096), (4, 1, 256), (5, 5, 256), (6, 6, 1024)] },
+        "starknet" => LayoutFacts { n_segments: 9, builtins: &[(3, 3, 512), (4, 1, 256), (5, 2, 32768), (6, 5, 1024), (7, 7, 16384), (8, 6, 512)] },
+        // keccak (segment 8, 16 cells) is batched: only the whole-number clause is modelled for it
+        "starknet_with_keccak" => LayoutFacts { n_segments: 10, builtins: &[(3, 3, 512), (4, 1, 256), (5, 2, 32768), (6, 5, 1024), (7, 7, 16384), (9, 6, 512)] },
+        _ => return None,
+    })
+}
+
+#[derive(Debug, Clone, PartialEq)]
+pub enum Verdict3 {
+    MustAccept,
+    MustReject(String),
+    NotStated(String),
+}
+
+fn big(f: &Felt) -> BigUint {
+    f.to_biguint()
+}
+
+/// The C14 validation predicate for the static layouts, three-valued: only clauses the property
+/// makes explicit decide; everything else is NotStated.
+pub fn ref_validate_public_input(pi: &PublicInput, layout: &str, log_trace: &Felt) -> Verdict3 {
+    let Some(facts) = layout_facts(layout) else { return Verdict3::NotStated("no model for this layout".into()) };
+    let lt = big(log_trace);
+    let ls = big(&pi.log_n_steps);
+    if lt > BigUint::from(64u32) {
+        return Verdict3::NotStated("huge trace exponent".into());
+    }
+    if ls.clone() + BigUint::from(4u32) != lt {
+        return Verdict3::MustReject("step count does not match the trace length".into());
+    }
+    if pi.segments.len() != facts.n_segments {
+        return Verdict3::MustReject("segment count".into());
+    }
+    if pi.layout != Felt::from_bytes_be_slice(layout.as_bytes()) {
+        return Verdict3::MustReject("layout code".into());
+    }
+    let (rmin, rmax) = (big(&pi.range_check_min), big(&pi.range_check_max));
+    if rmax > BigUint::from(0xffffu32) || rmin > rmax {
+        return Verdict3::MustReject("range-check bounds".into());
+    }
+    if rmin == rmax {
+        return Verdict3::NotStated("equal range-check bounds".into());
+    }
+    let trace_len = BigUint::from(1u32) << (lt.to_u64_digits().first().copied().unwrap_or(0) as usize);
+    let mut not_stated = None;
+    for (seg, cells, rows) in facts.builtins {
+        let s = &pi.segments[*seg];
+        let (b, e) = (big(&s.begin_addr), big(&s.stop_ptr));
+        if e < b {
+            return Verdict3::MustReject(format!("segment {seg}: stop before begin"));
+        }
+        let used = e - b;
+        if &used % BigUint::from(*cells) != BigUint::from(0u32) {
+            return Verdict3::MustReject(format!("segment {seg}: not a whole number of instances"));
+        }
+        let instances = used / BigUint::from(*cells);
+        if &trace_len % BigUint::from(*rows) != BigUint::from(0u32) {
+            not_stated = Some(format!("trace length not divisible by row ratio of segment {seg}"));
+            continue;
+        }
+        if instances > &trace_len / BigUint::from(*rows) {
+            return Verdict3::MustReject(format!("segment {seg}: more instances than the trace holds"));
+        }
+    }
+    if layout == "starknet_with_keccak" {
+        let s = &pi.segments[8];
+        let (b, e) = (big(&s.begin_addr), big(&s.stop_ptr));
+        if e < b || (e - b) % BigUint::from(16u32) != BigUint::from(0u32) {
+            return Verdict3::MustReject("keccak segment: not a whole number of instances".into());
+        }
+        not_stated.get_or_insert("keccak capacity not modelled".to_string());
+        // capacity of the batched keccak builtin is not modelled; if everything else is fine the
+        // recorded inputs are still required to be accepted (see caller)
+        return Verdict3::NotStated("keccak capacity not modelled".into());
+    }
+    // output segment: any size is allowed by the statement (no instance structure)
+    let o = &pi.segments[2];
+    if big(&o.stop_ptr) < big(&o.begin_addr) {
+        return Verdict3::NotStated("negative output size".into());
+    }
+    match not_stated {
+        Some(w) => Verdict3::NotStated(w),
+        None => Verdict3::MustAccept,
+    }
+}
+
+/// Address-based program / output extraction (C14, C03).
+#[derive(Debug, Clone, PartialEq)]
+pub enum Hashes3 {
+    /// the page has the program and output cells at the right addresses: if the verifier returns
+    /// Ok the pair must be this one
+    Pair(Felt, Felt),
+    /// cells at other addresses / page too short: must be rejected
+    MustReject(String),
+    NotStated(String),
+}
+
+pub fn ref_program_output(pi: &PublicInput) -> Hashes3 {
+    if pi.segments.len() < 3 {
+        return Hashes3::NotStated("fewer than three segments".into());
+    }
+    let pc = big(&pi.segments[0].begin_addr);
+    let fp = big(&pi.segments[1].begin_addr);
+    let (ob, oe) = (big(&pi.segments[2].begin_addr), big(&pi.segments[2].stop_ptr));
+    if fp < pc.clone() + BigUint::from(2u32) || oe < ob {
+        return Hashes3::NotStated("degenerate segment bounds".into());
+    }
+    let p_len = fp - BigUint::from(2u32) - &pc;
+    let o_len = &oe - &ob;
+    let n = BigUint::from(pi.main_page.len() as u64);
+    if &p_len + &o_len > n {
+        return Hashes3::MustReject("main page shorter than program + output".into());
+    }
+    let p_len = p_len.to_u64_digits().first().copied().unwrap_or(0) as usize;
+    let o_len = o_len.to_u64_digits().first().copied().unwrap_or(0) as usize;
+    let page = &pi.main_page;
+    let mut program = Vec::new();
+    for i in 0..p_len {
+        if big(&page[i].address) != &pc + BigUint::from(i as u64) {
+            return Hashes3::MustReject(format!("program cell {i} is not at address pc+{i}"));
+        }
+        program.push(page[i].value);
+    }
+    let mut output = Vec::new();
+    for j in 0..o_len {
+        let c = &page[page.len() - o_len + j];
+        if big(&c.address) != &ob + BigUint::from(j as u64) {
+            return Hashes3::MustReject(format!("output cell {j} is not at address output_start+{j}"));
+        }
+        output.push(c.value);
+    }
+    Hashes3::Pair(hash_chain(&program), hash_chain(&output))
+}
